@@ -383,8 +383,9 @@ func (c *Ctx) c19Rules() {
 		r.Check(found, "C19.rules", name, rw.errFn, c.P.Pos(e.Pos()), "rule present", "the "+rw.field+" rule is never evaluated")
 	}
 	// length rule
+	byTable := c.lengthRuleTable(e)
 	for _, call := range Calls(e) {
-		if Callee(call) != "(ab/defaults.Rules).lengthErr" {
+		if byTable || Callee(call) != "(ab/defaults.Rules).lengthErr" {
 			continue
 		}
 		// the block is reached from two edges: (MinLength>0 && ln<MinLength) or (MaxLength>0 && ln>MaxLength)
@@ -557,4 +558,128 @@ func (c *Ctx) rulesTableRow(e *ssa.Function, errFn, field string, isTally func(s
 		}
 	}
 	return false, "", ""
+}
+
+// lengthRuleTable decides the length rule as a truth table: with the four
+// comparisons (MinLength>0, len<MinLength, MaxLength>0, len>MaxLength) given
+// every combination of values, the paths of Errors that reach the evaluation
+// of the character tallies must have passed the lengthErr report exactly when
+// (MinLength>0 && len<MinLength) || (MaxLength>0 && len>MaxLength). A
+// comparison that is none of the four (non-strict, another constant, another
+// field) stays undetermined and is followed both ways, which then shows up as
+// a report under a valuation that forbids it or a pass under one that demands
+// it. Returns false when the anchors it needs are not there (the caller then
+// applies the edge-shaped rule).
+func (c *Ctx) lengthRuleTable(e *ssa.Function) bool {
+	r := c.R
+	name := FuncName(e)
+	var lengthCall, tallyCall ssa.Instruction
+	for _, call := range Calls(e) {
+		switch Callee(call) {
+		case "(ab/defaults.Rules).lengthErr":
+			if lengthCall != nil {
+				return false
+			}
+			lengthCall = call.(ssa.Instruction)
+		case "ab/defaults.tallyCharacters":
+			if tallyCall != nil {
+				return false
+			}
+			tallyCall = call.(ssa.Instruction)
+		}
+	}
+	if lengthCall == nil || tallyCall == nil {
+		return false
+	}
+	isLen := func(v ssa.Value) bool { return StrLenValue(v) != nil }
+	isZero := func(v ssa.Value) bool { k, ok := ConstInt(v); return ok && k == 0 }
+	// atom: which of the four comparisons (0..3) a condition is, and with which polarity
+	atomOf := func(v ssa.Value) (int, bool, bool) {
+		if _, isBin := v.(*ssa.BinOp); !isBin {
+			return 0, false, false
+		}
+		rel := Normalize(v, true)
+		x, y, op := rel.X, rel.Y, rel.Op
+		if x == nil || y == nil {
+			return 0, false, false
+		}
+		flip := map[token.Token]token.Token{token.LSS: token.GTR, token.GTR: token.LSS, token.LEQ: token.GEQ, token.GEQ: token.LEQ, token.EQL: token.EQL, token.NEQ: token.NEQ}
+		// bring the field to the right-hand side for len comparisons, to the left for zero tests
+		for _, fld := range []struct {
+			name     string
+			set, cmp int
+			viol     token.Token // len <viol> field is the violation
+			ok       token.Token
+		}{{"MinLength", 0, 1, token.LSS, token.GEQ}, {"MaxLength", 2, 3, token.GTR, token.LEQ}} {
+			fx, fy := fieldLoadName(x) == fld.name, fieldLoadName(y) == fld.name
+			switch {
+			case fx && isZero(y):
+				switch op {
+				case token.GTR, token.NEQ:
+					return fld.set, true, true
+				case token.LEQ, token.EQL:
+					return fld.set, false, true
+				}
+			case fy && isZero(x):
+				switch flip[op] {
+				case token.GTR, token.NEQ:
+					return fld.set, true, true
+				case token.LEQ, token.EQL:
+					return fld.set, false, true
+				}
+			case fy && isLen(x):
+				switch op {
+				case fld.viol:
+					return fld.cmp, true, true
+				case fld.ok:
+					return fld.cmp, false, true
+				}
+			case fx && isLen(y):
+				switch flip[op] {
+				case fld.viol:
+					return fld.cmp, true, true
+				case fld.ok:
+					return fld.cmp, false, true
+				}
+			}
+		}
+		return 0, false, false
+	}
+	okAll := true
+	why := ""
+	reported := false
+	for val := 0; val < 16; val++ {
+		bit := func(i int) bool { return val&(1<<i) != 0 }
+		spec := (bit(0) && bit(1)) || (bit(2) && bit(3))
+		w := Walk{
+			Atom: func(v ssa.Value) (bool, bool) {
+				i, pol, ok := atomOf(v)
+				if !ok {
+					return false, false
+				}
+				return bit(i) == pol, true
+			},
+			Stop: func(in ssa.Instruction) bool { return in == lengthCall || in == tallyCall },
+		}
+		for _, t := range w.Traces(e) {
+			switch t.End {
+			case lengthCall:
+				reported = true
+				if !spec && okAll {
+					okAll = false
+					why = sprintf("the length error is reported with MinLength>0=%v len<MinLength=%v MaxLength>0=%v len>MaxLength=%v", bit(0), bit(1), bit(2), bit(3))
+				}
+			case tallyCall:
+				if spec && okAll {
+					okAll = false
+					why = sprintf("no length error is reported with MinLength>0=%v len<MinLength=%v MaxLength>0=%v len>MaxLength=%v", bit(0), bit(1), bit(2), bit(3))
+				}
+			}
+		}
+	}
+	if !reported {
+		okAll, why = false, "the length error is never reported"
+	}
+	r.Check(okAll, "C19.rules", name, "lengthErr iff len<Min || len>Max", posf(c, lengthCall), "truth table over (MinLength>0, len<MinLength, MaxLength>0, len>MaxLength): reported exactly under (Min set and below) or (Max set and above)", "length error is not reported exactly under len<MinLength (when set) or len>MaxLength (when set): "+why)
+	return true
 }
